@@ -15,10 +15,18 @@ package main
 //   raw <sv> cuts=<…> <bytes>   the same for arbitrary bytes.
 // output:
 //   len=<L> whole=<frames>,<consumed>,<err> wh=<hash> det=<0|1> pfx=<0|1>
-//   feed=<frames>,<left>,<closed>,<hash> all=<agree>/<tried> :: <frame…> ;; <frame…>
+//   feed=<frames>,<left>,<closed>,<hash> all=<agree>/<tried> gw=<frames>,<left>,<closed>,<hash>
+//   gwall=<agree>/<tried> :: <frame…> ;; <frame…>
 //   (or "encfail" when a frame of a seq op does not encode)
 //   det: decoded SEND payloads survive overwriting the input buffer (detachSendPayload)
 //   pfx: decoding exactly in[:consumed] yields the same frames and consumed (no over-read)
+//   feed = Adapter.Decode driven by the harness' own copy of the buffer discipline;
+//   gw   = the same chunks pushed through the REAL gateway (core.Server.onData via a fake
+//          transport connection, the real wkproto adapter registered as the listener's
+//          protocol): frames as the server dispatches them (Observer.OnFrameIn order,
+//          contents from Handler.OnFrame / the async SEND path), bytes left in
+//          sessionState.inbound (0 when closed), closed flag.  gwall: single chunk,
+//          byte-by-byte and a few two-chunk splits all give the same gw signature.
 // sv is the value stored under gateway.protocol_version (0 = not set).
 // Every slice handed to the decoder has cap == len.
 
@@ -27,6 +35,11 @@ import (
 	"sort"
 	"strconv"
 	"strings"
+	"sync"
+	"time"
+
+	"github.com/WuKongIM/WuKongIM/pkg/gateway/core"
+	"github.com/WuKongIM/WuKongIM/pkg/gateway/transport"
 
 	"github.com/WuKongIM/WuKongIM/pkg/gateway/protocol/wkproto"
 	"github.com/WuKongIM/WuKongIM/pkg/gateway/session"
@@ -136,11 +149,232 @@ func effv(sv int) int {
 }
 
 type c23Runner struct {
-	a *wkproto.Adapter
-	p *codec.WKProto
+	a  *wkproto.Adapter
+	p  *codec.WKProto
+	gw *c23Gateway
 }
 
-func (r *c23Runner) Close() {}
+func (r *c23Runner) Close() {
+	if r.gw != nil {
+		srv := r.gw.srv
+		r.gw = nil
+		go func() { _ = srv.Stop() }()
+	}
+}
+
+// ------------------------------------------------ the real gateway path ---
+
+type c23Listener struct{}
+
+func (c23Listener) Start() error { return nil }
+func (c23Listener) Stop() error  { return nil }
+func (c23Listener) Addr() string { return "c23" }
+
+type c23Factory struct{ handler transport.ConnHandler }
+
+func (f *c23Factory) Name() string { return "c23t" }
+func (f *c23Factory) Build(specs []transport.ListenerSpec) ([]transport.Listener, error) {
+	out := make([]transport.Listener, 0, len(specs))
+	for _, sp := range specs {
+		f.handler = sp.Handler
+		out = append(out, c23Listener{})
+	}
+	return out, nil
+}
+
+type c23Conn struct {
+	id     uint64
+	mu     sync.Mutex
+	closed bool
+}
+
+func (c *c23Conn) ID() uint64          { return c.id }
+func (c *c23Conn) Write([]byte) error  { return nil }
+func (c *c23Conn) LocalAddr() string   { return "l" }
+func (c *c23Conn) RemoteAddr() string  { return "r" + strconv.FormatUint(c.id, 10) }
+func (c *c23Conn) Close() error {
+	c.mu.Lock()
+	c.closed = true
+	c.mu.Unlock()
+	return nil
+}
+
+// c23Trace collects what the server dispatches for one connection.
+type c23Trace struct {
+	mu     sync.Mutex
+	cond   *sync.Cond
+	slots  []string // one per OnFrameIn event, in order; "" = SEND content still in flight
+	sendIx []int    // slots waiting for the k-th SEND delivery
+	sends  int      // SEND deliveries so far
+	extra  int      // handler deliveries that match no OnFrameIn slot
+}
+
+type c23Gateway struct {
+	srv *core.Server
+	fac *c23Factory
+	mu  sync.Mutex
+	sv  int
+	tr  map[uint64]*c23Trace // by session id
+	cur *c23Trace            // trace of the connection being opened
+	ids uint64
+}
+
+func (g *c23Gateway) trace(sess session.Session) *c23Trace {
+	if sess == nil {
+		return nil
+	}
+	g.mu.Lock()
+	defer g.mu.Unlock()
+	return g.tr[sess.ID()]
+}
+
+// gatewaytypes.Handler
+func (g *c23Gateway) OnListenerError(string, error) {}
+func (g *c23Gateway) OnSessionOpen(ctx gatewaytypes.Context) error {
+	g.mu.Lock()
+	if ctx.Session != nil {
+		if g.sv != 0 {
+			ctx.Session.SetValue(gatewaytypes.SessionValueProtocolVersion, uint8(g.sv))
+		}
+		g.tr[ctx.Session.ID()] = g.cur
+	}
+	g.mu.Unlock()
+	return nil
+}
+func (g *c23Gateway) OnSessionClose(gatewaytypes.Context) error { return nil }
+func (g *c23Gateway) OnSessionError(gatewaytypes.Context, error) {}
+func (g *c23Gateway) OnFrame(ctx gatewaytypes.Context, f frame.Frame) error {
+	t := g.trace(ctx.Session)
+	if t == nil {
+		return nil
+	}
+	text := showFrame(f)
+	t.mu.Lock()
+	defer t.mu.Unlock()
+	if _, ok := f.(*frame.SendPacket); ok {
+		if t.sends < len(t.sendIx) {
+			t.slots[t.sendIx[t.sends]] = text
+		} else {
+			t.extra++
+		}
+		t.sends++
+		t.cond.Broadcast()
+		return nil
+	}
+	// non-SEND frames are dispatched synchronously right after their OnFrameIn event
+	if n := len(t.slots); n > 0 && t.slots[n-1] == "?" {
+		t.slots[n-1] = text
+	} else {
+		t.extra++
+	}
+	return nil
+}
+
+// gatewaytypes.Observer
+func (g *c23Gateway) OnConnectionOpen(gatewaytypes.ConnectionEvent)  {}
+func (g *c23Gateway) OnConnectionClose(gatewaytypes.ConnectionEvent) {}
+func (g *c23Gateway) OnAuth(gatewaytypes.AuthEvent)                  {}
+func (g *c23Gateway) OnFrameOut(gatewaytypes.FrameEvent)             {}
+func (g *c23Gateway) OnFrameHandled(gatewaytypes.FrameHandleEvent)   {}
+func (g *c23Gateway) OnFrameIn(ev gatewaytypes.FrameEvent) {
+	// called synchronously from onData on the feeding goroutine: one connection is fed at a time
+	g.mu.Lock()
+	t := g.cur
+	g.mu.Unlock()
+	if t == nil {
+		return
+	}
+	t.mu.Lock()
+	if ev.FrameType == "SEND" {
+		t.sendIx = append(t.sendIx, len(t.slots))
+		t.slots = append(t.slots, "")
+	} else {
+		t.slots = append(t.slots, "?")
+	}
+	t.mu.Unlock()
+}
+
+func newC23Gateway() (*c23Gateway, error) {
+	g := &c23Gateway{fac: &c23Factory{}, tr: map[uint64]*c23Trace{}}
+	reg := core.NewRegistry()
+	if err := reg.RegisterTransport(g.fac); err != nil {
+		return nil, err
+	}
+	if err := reg.RegisterProtocol(wkproto.New()); err != nil {
+		return nil, err
+	}
+	srv, err := core.NewServer(reg, &gatewaytypes.Options{
+		Handler:        g,
+		Observer:       g,
+		DefaultSession: gatewaytypes.SessionOptions{MaxInboundBytes: 64 << 20, IdleTimeout: time.Hour},
+		Runtime: gatewaytypes.RuntimeOptions{AsyncSendWorkers: 2, AsyncSendQueueCapacity: 8192,
+			AsyncAuthWorkers: 1, AsyncAuthQueueCapacity: 1, AsyncPoolReleaseTimeout: 50 * time.Millisecond},
+		Listeners: []gatewaytypes.ListenerOptions{{Name: "l", Network: "tcp", Address: "c23", Transport: "c23t", Protocol: wkproto.Name}},
+	})
+	if err != nil {
+		return nil, err
+	}
+	if err := srv.Start(); err != nil {
+		return nil, err
+	}
+	g.srv = srv
+	return g, nil
+}
+
+// feed pushes the chunks through the real server on a fresh connection.
+func (g *c23Gateway) feed(sv int, chunks [][]byte) (frames []string, left int, closed bool) {
+	t := &c23Trace{}
+	t.cond = sync.NewCond(&t.mu)
+	g.mu.Lock()
+	g.ids++
+	conn := &c23Conn{id: g.ids}
+	g.sv = sv
+	g.cur = t
+	g.mu.Unlock()
+	h := g.fac.handler
+	if err := h.OnOpen(conn); err != nil {
+		return []string{"open-error"}, 0, true
+	}
+	for _, ch := range chunks {
+		in := c23Exact(ch)
+		_ = h.OnData(conn, in)
+		for i := range in { // the transport reuses its read buffer
+			in[i] ^= 0xFF
+		}
+	}
+	// wait for the asynchronously dispatched SEND frames (no assertion on timing:
+	// the deadline only turns a lost frame into a visible "lost-send" marker)
+	deadline := time.Now().Add(60 * time.Second)
+	t.mu.Lock()
+	for t.sends < len(t.sendIx) && time.Now().Before(deadline) {
+		t.mu.Unlock()
+		time.Sleep(50 * time.Microsecond)
+		t.mu.Lock()
+	}
+	for _, s := range t.slots {
+		switch s {
+		case "":
+			frames = append(frames, "lost-send")
+		case "?":
+			frames = append(frames, "undispatched")
+		default:
+			frames = append(frames, s)
+		}
+	}
+	for i := 0; i < t.extra; i++ {
+		frames = append(frames, "unexpected-delivery")
+	}
+	t.mu.Unlock()
+	left, closed = g.srv.VerifInboundState("l", conn.id)
+	conn.mu.Lock()
+	closed = closed || conn.closed
+	conn.mu.Unlock()
+	if closed {
+		left = 0
+	}
+	h.OnClose(conn, nil)
+	return frames, left, closed
+}
 
 func c23Exact(b []byte) []byte {
 	out := make([]byte, len(b))
@@ -249,9 +483,41 @@ func (r *c23Runner) observe(sv int, cutsTok string, data []byte) string {
 	sig := func(fr []string, left int, closed bool) string {
 		return fmt.Sprintf("%d,%d,%d,%d", len(fr), left, b01(closed), hashStr(strings.Join(fr, " ;; ")))
 	}
+	if r.gw == nil {
+		g, err := newC23Gateway()
+		if err != nil {
+			return "gateway-start-failed " + err.Error()
+		}
+		r.gw = g
+	}
+	gwsig := func(fr []string, left int, closed bool) string {
+		if closed {
+			left = 0
+		}
+		return sig(fr, left, closed)
+	}
 	agree, tried := 0, 0
-	var feedSig string
+	gwAgree, gwTried := 0, 0
+	var feedSig, gwSig string
 	if cutsTok == "all" {
+		gwSig = gwsig(r.gw.feed(sv, [][]byte{data}))
+		stride := len(data)/8 + 1
+		for i := stride; i < len(data); i += stride {
+			gwTried++
+			if gwsig(r.gw.feed(sv, [][]byte{data[:i], data[i:]})) == gwSig {
+				gwAgree++
+			}
+		}
+		{
+			one := make([][]byte, 0, len(data))
+			for i := range data {
+				one = append(one, data[i:i+1])
+			}
+			gwTried++
+			if gwsig(r.gw.feed(sv, one)) == gwSig {
+				gwAgree++
+			}
+		}
 		feedSig = sig(r.feed(sess, [][]byte{data}))
 		for i := 1; i < len(data); i++ {
 			tried++
@@ -278,10 +544,13 @@ func (r *c23Runner) observe(sv int, cutsTok string, data []byte) string {
 				raw = append(raw, c)
 			}
 		}
-		feedSig = sig(r.feed(sess, cutChunks(data, canonCuts(raw, len(data)))))
+		chunks := cutChunks(data, canonCuts(raw, len(data)))
+		feedSig = sig(r.feed(sess, chunks))
+		gwSig = gwsig(r.gw.feed(sv, chunks))
 	}
-	return fmt.Sprintf("len=%d whole=%d,%d,%d wh=%d det=%d pfx=%d feed=%s all=%d/%d :: %s",
-		len(data), len(w.frames), w.consumed, b01(w.err), hashStr(wj), b01(w.det), b01(pfx), feedSig, agree, tried, wj)
+	return fmt.Sprintf("len=%d whole=%d,%d,%d wh=%d det=%d pfx=%d feed=%s all=%d/%d gw=%s gwall=%d/%d :: %s",
+		len(data), len(w.frames), w.consumed, b01(w.err), hashStr(wj), b01(w.det), b01(pfx), feedSig, agree, tried,
+		gwSig, gwAgree, gwTried, wj)
 }
 
 func (r *c23Runner) Step(op string) string {
